@@ -59,12 +59,36 @@ pub fn mbox(args: &[&str]) -> Option<Vec<String>> {
 /// `mboxlist <name:addr,name:addr,…>` → Display of the list, what parsing it gives
 pub fn mboxlist(args: &[&str]) -> Option<Vec<String>> {
     let mut ms = Mailboxes::new();
+    let mut given: Vec<Mailbox> = vec![];
     if *args.first()? != "-" {
         for e in args[0].split(',') {
             let (n, a) = e.split_once(':')?;
             ms.push(mk_mailbox(n, a)?);
+            given.push(mk_mailbox(n, a)?);
         }
     }
+    // the conversions of a list: nothing lost, nothing reordered
+    let conv: String = [
+        ms.clone().into_single() == given.first().cloned(),
+        Vec::<Mailbox>::from(ms.clone()) == given,
+        ms.iter().cloned().collect::<Vec<_>>() == given && ms.clone().into_iter().collect::<Vec<_>>() == given,
+        Mailboxes::from(given.clone()) == ms
+            && given.iter().cloned().collect::<Mailboxes>() == ms
+            && given.iter().cloned().fold(Mailboxes::new(), |a, m| a.with(m)) == ms
+            && {
+                let mut e = Mailboxes::new();
+                e.extend(given.iter().cloned());
+                e == ms
+            },
+        // serde: a list serializes to something that deserializes to the same list
+        serde_json::to_string(&ms).ok().and_then(|j| serde_json::from_str::<Mailboxes>(&j).ok()).map(|b| {
+            let v: Vec<Mailbox> = b.into();
+            v.len() == given.len() && v.iter().zip(given.iter()).all(|(a, b)| a.email == b.email)
+        }) == Some(true),
+    ]
+    .iter()
+    .map(|b| if *b { '1' } else { '0' })
+    .collect();
     use std::fmt::Write;
     let mut disp = String::new();
     if write!(disp, "{}", ms).is_err() {
@@ -77,7 +101,7 @@ pub fn mboxlist(args: &[&str]) -> Option<Vec<String>> {
         }
         Err(_) => "err".to_string(),
     };
-    Some(vec![format!("ok:{}", hex(disp.as_bytes())), back])
+    Some(vec![format!("ok:{}", hex(disp.as_bytes())), format!("{back}|conv:{conv}")])
 }
 
 /// `mboxparse <kind s|l> <text>` → the grammar's result (hook), the public parser's result, and
@@ -164,6 +188,9 @@ pub fn typed(args: &[&str]) -> Option<Vec<String>> {
         }
         "mimever" => {
             let v = MimeVersion::new(a.parse().ok()?, b.parse().ok()?);
+            if v.major() != a.parse::<u8>().ok()? || v.minor() != b.parse::<u8>().ok()? {
+                return Some(vec!["-".into(), "accessors-differ".into()]);
+            }
             h.set(v.clone());
             chk(h.get::<MimeVersion>().map(|g| g == v), h.clone().remove::<MimeVersion>().map(|g| g == v), { let mut h2 = h.clone(); h2.remove::<MimeVersion>(); h2.get::<MimeVersion>().is_none() })
         }
